@@ -192,10 +192,11 @@ def updateAccountsMeta (now : Time) (m : Map String Meta) (at_ : Option Time) (d
   let w := match at_ with | some x => x | none => now
   { d with accounts := m.foldl (updateAccountMeta w) d.accounts }
 
-/-- `DeleteAccountMetadata(address, key)`: no row, no error. -/
-def deleteAccountMeta (address key : String) (d : Db) : Db :=
+/-- `DeleteAccountMetadata(address, key)`: `SET metadata = metadata - key, updated_at =
+    transaction_date()`; no row, no error. -/
+def deleteAccountMeta (now : Time) (address key : String) (d : Db) : Db :=
   match d.accounts.get? address with
-  | some a => { d with accounts := d.accounts.insert address { a with metadata := a.metadata.erase key } }
+  | some a => { d with accounts := d.accounts.insert address { a with metadata := a.metadata.erase key, updatedAt := now } }
   | none => d
 
 /-! ### schemas -/
@@ -288,7 +289,7 @@ def exec (now : Time) : (c : Call) → Db → Seqs → Seqs × Except StoreErr (
   | .updateTxMeta id m w, d, sq => (sq, updateTxMeta now id m w d)
   | .deleteTxMeta id k w, d, sq => (sq, deleteTxMeta now id k w d)
   | .updateAccountsMeta m w, d, sq => (sq, .ok ((), updateAccountsMeta now m w d))
-  | .deleteAccountMeta a k, d, sq => (sq, .ok ((), deleteAccountMeta a k d))
+  | .deleteAccountMeta a k, d, sq => (sq, .ok ((), deleteAccountMeta now a k d))
   | .insertSchema s, d, sq => (sq, .ok (insertSchema now s d))
   | .insertLog l, d, sq => insertLog now l d sq
 
